@@ -271,3 +271,11 @@ def x15(cx: Cx, ob: Ob) -> None:
     from .c09 import d4 as propagation
 
     propagation(cx, ob)
+
+
+@obligation("C07-X21", "is_curie / parse split where format_curie joins: parse_curie splits with sep=self.delimiter through _split (first occurrence, NoCURIEDelimiterError when absent - the class parse_curie and is_curie handle) (shared with C02-D1/D2)", floor=3)
+def x21(cx: Cx, ob: Ob) -> None:
+    from .c02 import check_parse_curie_delimiter, check_split
+
+    check_split(cx, ob)
+    check_parse_curie_delimiter(cx, ob)
